@@ -36,7 +36,7 @@ func init() {
 			"evaluator on float64: row count, exact key set and values per row. Non-trivial: >=1 output row and >=1 operator node. " +
 			"Distinct = distinct JSON encodings of (doc, select list, where).",
 		Assumptions: []string{
-			"a third of the cases run inside an envelope that must not change the result: PostgresEscapingDialect / IdiomaticArrays on (the query uses neither double quotes nor brackets), Wrapped() with FROM root.<table>, tables handed over as []map[string]any, and a second execution on the same input object",
+			"a third of the cases run inside an envelope that must not change the result: PostgresEscapingDialect / IdiomaticArrays on (the query uses neither double quotes nor brackets), Wrapped() with FROM root.<table>, tables handed over as []map[string]any, a second execution on the same input object, and the same query text run before on a different document",
 			"no division/modulo by zero, bitwise/DIV operands integer-valued and non-negative, unary operators never see NULL (unspecified in the statement)",
 			"~x is accepted in both the two's-complement and MySQL-unsigned reading",
 			"floats compared with 1e-9 relative tolerance",
@@ -104,6 +104,33 @@ func genC02(t *rapid.T) any {
 				c.Items[i].Alias = fmt.Sprintf("o%d", i+1)
 			}
 		}
+	}
+	if rapid.IntRange(0, 3).Draw(t, "assoc") == 0 {
+		// IEEE addition and multiplication are not associative: an item whose value depends on the
+		// nesting the parentheses prescribe (cancellation, overflow, absorption)
+		op := rapid.SampledFrom([]string{"+", "+", "*"}).Draw(t, "assoc.op")
+		pool := []float64{1e16, -1e16, 1, 3, 0.5, 1e308, -1e308, 9007199254740992, -9007199254740992}
+		if op == "*" {
+			pool = []float64{1e200, 1e-200, 1e200, 3, 0.5, 1e-200, 1e308, 1e-308}
+		}
+		term := func(l string) *sq.E {
+			if len(pt.Nums) > 0 && rapid.IntRange(0, 4).Draw(t, l+".col") == 0 {
+				return sq.Col(rapid.SampledFrom(pt.Nums).Draw(t, l+".name"))
+			}
+			return sq.Num(rapid.SampledFrom(pool).Draw(t, l))
+		}
+		var e *sq.E
+		switch rapid.IntRange(0, 3).Draw(t, "assoc.shape") {
+		case 0:
+			e = sq.Bin(op, term("assoc.x"), sq.Bin(op, term("assoc.y"), term("assoc.z")))
+		case 1:
+			e = sq.Bin(op, sq.Bin(op, term("assoc.x"), term("assoc.y")), term("assoc.z"))
+		case 2:
+			e = sq.Bin(op, term("assoc.x"), sq.Bin(op, term("assoc.y"), sq.Bin(op, term("assoc.z"), term("assoc.w"))))
+		default:
+			e = sq.Bin(op, sq.Bin(op, term("assoc.x"), term("assoc.y")), sq.Bin(op, term("assoc.z"), term("assoc.w")))
+		}
+		c.Items = append(c.Items, SelItem{Expr: e, Alias: "oa"})
 	}
 	if c.Star == 0 && rapid.IntRange(0, 2).Draw(t, "shadow") == 0 {
 		// output names spelled like source columns (SELECT b AS a, a AS b): an alias names an output
@@ -251,6 +278,9 @@ func checkC02(c *C02Case) Result {
 			res.Labels = append(res.Labels, "nested-path")
 		}
 		res.Labels = append(res.Labels, fmt.Sprintf("depth:%d", minInt(it.Expr.Depth(), 6)))
+		if it.Alias == "oa" {
+			res.Labels = append(res.Labels, "nesting-sensitive-arithmetic")
+		}
 	}
 	res.Labels = dedup(res.Labels)
 	if c.Star != 0 {
